@@ -1812,6 +1812,11 @@ func (kmc *KeystoreManagerForPoC) ChangePrivPassphrase(oldPrivPass, newPrivPass 
 		addrManager.privPassphraseSalt = passphraseSalt
 		addrManager.hashedPrivPassphrase = hashedPassphrase
 	}
+	// The new master key is shared by all keystores; while the wallet is locked it
+	// must not stay derived in memory (it is re-derived from the passphrase on unlock).
+	if !kmc.unlocked {
+		newMasterPrivKey.Zero()
+	}
 	return nil
 }
 
